@@ -127,7 +127,9 @@ Init ==
   /\ pend = NoPend /\ run = Idle /\ out = NoOut /\ hist = <<>>
   /\ l = 1 /\ phase = "run"
 
-Ready == phase = "run" /\ run.kind = "idle"
+Idling == phase = "run" /\ run.kind = "idle"
+\* a case with lazy = 0 iterates every items() generator at once (no call between items() and list(it))
+Ready == Idling /\ (B.lazy = 1 \/ pend.o = 0) /\ (Mode = "mc" => Len(hist) < B.depth)
 \* which call comes next: any (mc) / the one the script names
 Pick(op, o, j, x) ==
   IF Mode = "mc" THEN TRUE
@@ -194,7 +196,7 @@ AICall(o) ==
   /\ UNCHANGED <<cid, streams, objs, exts, run>>
 McCls(o, dirty) == IF dirty = 1 THEN "lazy" ELSE IF objs[o].pos = 0 THEN "fresh" ELSE "cont"
 AIIter(o) ==
-  /\ Ready /\ Pick("iiter", o, 0, 0) /\ Adv
+  /\ Idling /\ Pick("iiter", o, 0, 0) /\ Adv
   /\ pend.o = o
   /\ pend' = NoPend
   /\ run' = [kind |-> "items", o |-> o, j |-> 0, k |-> 0, p0 |-> objs[o].pos, tab |-> EmptyTab, sum |-> 0,
@@ -231,7 +233,7 @@ McEnd ==
   /\ UNCHANGED <<cid, streams, objs, exts, pend, l>>
 
 Finish ==
-  /\ Mode # "mc" /\ Ready /\ l = Len(B.script) + 1
+  /\ Mode # "mc" /\ Idling /\ l = Len(B.script) + 1
   /\ phase' = "done"
   /\ UNCHANGED <<cid, streams, objs, exts, pend, run, out, hist, l>>
 
